@@ -7,7 +7,6 @@
 #
 # @author Davide Brunato <brunato@sissa.it>
 #
-from itertools import zip_longest
 from functools import cache
 from typing import cast, Any
 
@@ -18,7 +17,7 @@ from elementpath.datatypes import builtin_atomic_types, builtin_list_types, QNam
 from elementpath.exceptions import ElementPathKeyError, xpath_error
 from elementpath.namespaces import XSD_NAMESPACE, XSD_ERROR, XSD_DATETIME_STAMP, \
     XSD_NUMERIC, XSD_UNTYPED, XSD_UNTYPED_ATOMIC, get_expanded_name
-from elementpath.helpers import collapse_white_spaces, Patterns
+from elementpath.helpers import collapse_white_spaces, split_function_test, Patterns
 from elementpath.xpath_nodes import XPathNode, DocumentNode, ElementNode, AttributeNode
 from elementpath.xpath_tokens import XPathToken
 
@@ -114,18 +113,16 @@ def is_sequence_type_restriction(st1: str, st2: str) -> bool:
     elif st1 == 'function(*)':
         return True
 
-    parts1 = st1[9:].partition(') as ')
-    parts2 = st2[9:].partition(') as ')
+    # the parameter types (contravariant) and the return type (covariant), split by nesting depth
+    parts1 = split_function_test(st1)
+    parts2 = split_function_test(st2)
+    if not parts1 or len(parts1) != len(parts2):
+        return False
 
-    for st1, st2 in zip_longest(parts1[0].split(', '), parts2[0].split(', ')):
-        if st1 is None or st2 is None:
-            return False
+    for st1, st2 in zip(parts1[:-1], parts2[:-1]):
         if not is_sequence_type_restriction(st2, st1):
             return False
-    else:
-        if not is_sequence_type_restriction(parts1[2], parts2[2]):
-            return False
-        return True
+    return is_sequence_type_restriction(parts1[-1], parts2[-1])
 
 
 def is_instance(obj: Any, type_qname: str, parser: ta.XPathParserType | None = None) -> bool:
